@@ -261,7 +261,10 @@ def leftover_case(draw):
     ts = draw(st.sampled_from([None, "", "garbage", "12.5", "1e400", "\x00\x00", "9999999999.0", "-5", "recent"]))
     return {"present": present, "stray": stray, "timestamp": ts, "lock": draw(st.booleans()),
             "load": list(draw(st.sets(st.sampled_from(VERSIONS), min_size=1, max_size=3))),
-            "subdir": draw(st.booleans())}
+            "subdir": draw(st.booleans()),
+            "merged": draw(st.sampled_from([None, None, ("score_1.1.0", "testlib_2.0.0"),
+                                            ("testlib_2.0.0", "score_1.1.0")])),
+            "spec_form": draw(st.sampled_from(["list", "string"]))}
 
 
 def oracle_leftover(case):
@@ -295,9 +298,30 @@ def oracle_leftover(case):
                 out.bad(f"load-fails-on-leftover-cache:{why}", f"version {v}: {res}; state {case}")
             elif res[1] is not True:
                 out.bad("load-returns-different-content", f"version {v}; state {case}")
-        torn = torn_files(cache)
-        if torn:
-            out.bad("torn-file-under-final-name", f"{torn}; state {case}")
+        # a merged specification (two libraries under one prefix) over the same leftover directory: every part of it is
+        # found and merged, as from a complete cache
+        if case.get("merged"):
+            shutil.rmtree(cache, ignore_errors=True)
+            os.makedirs(cache)
+            first, second = case["merged"]
+            shutil.copy(hedenv.xml_path(first), os.path.join(cache, os.path.basename(hedenv.xml_path(first))))
+            shutil.copy(hedenv.xml_path(hedenv.PARTNERED[first]),
+                        os.path.join(cache, os.path.basename(hedenv.xml_path(hedenv.PARTNERED[first]))))
+
+            def job():
+                import hed.schema as hs
+                from hed.schema import load_schema_version
+                hs.set_cache_directory(cache)
+                spec = [first, second] if case.get("spec_form") != "string" else f"{first},{second}"
+                s = load_schema_version(spec)
+                return sorted(s.library.split(",")) if s.library else []
+            res = fork_run(job)
+            want = sorted({first.rsplit("_", 1)[0], second.rsplit("_", 1)[0]})
+            out.classes += ("merged-spec-on-partial-cache",)
+            if res[0] != "ok":
+                out.bad("merged-load-fails-on-partial-cache", f"{case['merged']}: {res}")
+            elif res[1] != want:
+                out.bad("merged-load-returns-different-content", f"{case['merged']}: libraries {res[1]} expected {want}")
     finally:
         shutil.rmtree(cache, ignore_errors=True)
     return out
